@@ -96,7 +96,7 @@ def check_property(prop, tier, seed, replay=None):
         fp = {}
 
     # 2. hygiene
-    bad = hygiene()
+    bad = hygiene([prop.property_file] + [t[:-1] if t.endswith(".vo") else t for t in prop.proof_targets] if prop.property_file else None)
     if bad:
         broken.append(("hygiene", "; ".join(bad[:10])))
 
@@ -126,6 +126,14 @@ def check_property(prop, tier, seed, replay=None):
                             broken.append(("axioms", "%s depends on %s" % (name, ", ".join(extra))))
                         else:
                             discharged += 1
+    # thorough tier: independent re-check of the compiled property file and everything it depends on
+    if tier == "thorough" and prop.property_file and not broken:
+        mod = "Dnp3V." + prop.property_file[:-2].replace("/", ".")
+        p = sh(["timeout", "1500", "coqchk", "-o", "-silent", "-Q", ".", "Dnp3V", mod], cwd=COQ, check=False, timeout=1600)
+        tail = [l for l in p.stdout.splitlines() if l.strip()][-12:]
+        coverage["coqchk"] = {"exit": p.returncode, "tail": tail}
+        if p.returncode != 0:
+            broken.append(("coqchk", "\n".join(tail)))
     coverage["obligations"] = obligations
     coverage["discharged"] = discharged
     coverage["theorems"] = prop.theorems
